@@ -1,4 +1,5 @@
 import MesaModel.Model.Devs
+import MesaModel.Model.Heap
 /-!
 Line-protocol driver for the Devs model (C14, C15, C18-devs).
 One output line per input line.  See harness/c14.py for the producer.
@@ -42,6 +43,7 @@ def fmtErr : Err → String
 structure St where
   sim : Sim
   progs : List (Nat × List Cmd)
+  heap : List Ev := []      -- `scenario heap`: the heapq transcription on its own (hpush / hpop), array layout observed
 
 def St.look (ps : List (Nat × List Cmd)) (a : Nat) : List Cmd := (ps.lookup a).getD []
 
@@ -53,7 +55,7 @@ def stepLine (st : St) (ws : List String) : St × String :=
   | ["scenario", k] =>
       match (if k = "abm" then some Kind.abm else if k = "devs" then some Kind.devs else none) with
       | none => (st, "bad-op")
-      | some kd => ({ sim := init kd (St.look []) [], progs := [] }, "ok")
+      | some kd => ({ sim := init kd (St.look []) [], progs := [], heap := [] }, "ok")
   | "prog" :: a :: rest =>
       match a.toNat?, parseProg rest with
       | some a, some cmds =>
@@ -64,6 +66,21 @@ def stepLine (st : St) (ws : List String) : St × String :=
       match parseProg rest with
       | some cmds => ({ st with sim := { s with stepProg := cmds } }, "ok")
       | none => (st, "bad-op")
+  | ["hpush", t, p] =>
+      match t.toInt?, p.toNat? with
+      | some t, some p =>
+        let e : Ev := { time := t, prio := p, id := st.heap.length + s.nextId, tag := 0, isStep := false,
+                        cancelled := false, dead := false, act := 0 }
+        let h := Mesa.Heap.heappush Ev.lt st.heap e
+        ({ st with heap := h, sim := { s with nextId := s.nextId } }, "ok " ++ " ".intercalate (h.map fun e => s!"{e.time},{e.prio},{e.id}"))
+      | _, _ => (st, "bad-op")
+  | ["hpop"] =>
+      match Mesa.Heap.heappop Ev.lt st.heap with
+      | none => (st, "err Index")
+      | some (m, h) =>
+        -- ids stay unique: remember how many were handed out in `nextId`
+        ({ st with heap := h, sim := { s with nextId := s.nextId + 1 } },
+         s!"ok {m.time},{m.prio},{m.id} | " ++ " ".intercalate (h.map fun e => s!"{e.time},{e.prio},{e.id}"))
   | ["setup"] => ({ st with sim := setup s }, "ok")
   | ["reset"] => ({ st with sim := init s.kind s.prog s.stepProg }, "ok")   -- Simulator.reset + a fresh model
   | ["until", t] =>
